@@ -229,6 +229,24 @@ pub fn lm_of(v: &Value) -> LinearModel {
     let obj: Vec<f64> = v["obj"].as_array().unwrap().iter().map(fnum).collect();
     let dir = dir_of(v["dir"].as_str().unwrap());
     let off = v.get("off").map(fnum).unwrap_or(0.0);
+    if let Some(order) = v.get("domain_order").and_then(|o| o.as_array()) {
+        // a model whose domain map is ordered differently from its variable columns, as the linearizer
+        // produces (columns sorted by name, domain in declaration order): only new_from_parts can build it
+        let (_, _, _, cons, vars, dom) = m.into_parts();
+        let mut obj = obj;
+        obj.resize(vars.len(), 0.0);
+        let mut reordered = IndexMap::new();
+        for n in order {
+            let n = n.as_str().unwrap();
+            if let Some(d) = dom.get(n) {
+                reordered.insert(n.to_string(), d.clone());
+            }
+        }
+        for (n, d) in dom {
+            reordered.entry(n).or_insert(d);
+        }
+        return LinearModel::new_from_parts(obj, dir, off, cons, vars, reordered);
+    }
     if off != 0.0 {
         // only new_from_parts lets a caller set the offset
         let (_, _, _, cons, vars, dom) = m.into_parts();
